@@ -729,7 +729,7 @@ def sanitise(case):
 def build_cases(tier, seed):
     pinned = fam_grid(tier) + fam_twice(tier) + fam_own_dir_shadow(tier) + fam_unspecified(tier)
     rng = clilib.Rng(seed)
-    n = 120 if tier == "quick" else 2500
+    n = 200 if tier == "quick" else 8000
     seeded = [seeded_case(rng, i) for i in range(n)]
     return pinned, seeded
 
